@@ -418,3 +418,28 @@ def box_into_vec(c):
         return [(c.st, Seq(v.len, None, v.items, None, v.content()))]
     m = re.search(r"::<.*, (\d+)>$", c.name)
     return [(c.st, Seq(Lin.const(int(m.group(1)))) if m else c.top_ret())]
+
+
+# ------------------------------------------------------------------------------------------- std::mem
+
+@first(r"^std::mem::replace::<.*>$|^core::mem::replace::<.*>$")
+def mem_replace(c):
+    r = c.args[0]
+    if isinstance(r, Ref):
+        old = c.it.load(c.st, r.cell, r.path)
+        c.it.store(c.st, r.cell, r.path, c.args[1])
+        return [(c.st, old)]
+    c.havoc_mut_args()
+    return [(c.st, c.top_ret())]
+
+
+@first(r"^std::mem::swap::<.*>$|^core::mem::swap::<.*>$")
+def mem_swap(c):
+    a, b = c.args[0], c.args[1]
+    if isinstance(a, Ref) and isinstance(b, Ref):
+        va, vb = c.it.load(c.st, a.cell, a.path), c.it.load(c.st, b.cell, b.path)
+        c.it.store(c.st, a.cell, a.path, vb)
+        c.it.store(c.st, b.cell, b.path, va)
+        return [(c.st, Struct())]
+    c.havoc_mut_args()
+    return [(c.st, Struct())]
